@@ -389,7 +389,8 @@ impl ZkStdLib {
     pub fn configure(meta: &mut ConstraintSystem<F>, arch: ZkStdLibArch) -> ZkStdLibConfig {
         let nb_advice_cols = [
             NB_ARITH_COLS,
-            arch.nr_pow2range_cols as usize,
+            // The pow2range columns are advice columns 1..=nr_pow2range_cols.
+            arch.nr_pow2range_cols as usize + 1,
             arch.jubjub as usize * NB_EDWARDS_COLS,
             arch.poseidon as usize * NB_POSEIDON_ADVICE_COLS,
             arch.sha2_256 as usize * NB_SHA256_ADVICE_COLS,
